@@ -1,6 +1,8 @@
 import PysphVerif.Lemmas.PairSym
 import PysphVerif.Lemmas.NbrCacheHist
 import PysphVerif.Lemmas.NbrMask
+import PysphVerif.Lemmas.PeriodicGhosts
+import Mathlib.Tactic.NormNum
 import Mathlib.Tactic.FieldSimp
 /-!
 # C09 — pair-symmetric momentum equations conserve linear and angular momentum
@@ -2050,5 +2052,64 @@ theorem strat_hash_mask_needs_H :
 
 end NeighbourLayer
 
+
+section PeriodicLayer
+open PysphVerif.PeriodicGhosts
+
+/-- Periodic box, any number of arrays of any resolutions: with the image layer
+of `_create_ghosts_periodic` — the SAME depth `n_layers * cell_size` for every
+array, `cell_size = radius_scale * hmax` over all arrays (or the fallback
+`1.0`), `n_layers ≥ 1` — real particle `i` has `j` or an image of `j` in its
+neighbour list exactly as often as `j` has `i` or an image of `i`, whatever
+arrays the two belong to (`h_i, h_j ≤ hmax`).  Per periodic axis; the sums of
+the conservation theorems then pair every force on a real particle with its
+reaction on a real particle. -/
+theorem periodic_pair_seen_equally (nLayers k tiny hmax cell lo hi xi h_i xj h_j : K)
+    (hn : 1 ≤ nLayers) (hk : 0 ≤ k) (htiny : tiny ≤ 1)
+    (hcell : cell = if k * hmax < tiny then 1 else k * hmax)
+    (hxi : lo ≤ xi ∧ xi ≤ hi) (hxj : lo ≤ xj ∧ xj ≤ hi)
+    (hi0 : 0 ≤ h_i) (hj0 : 0 ≤ h_j) (hih : h_i ≤ hmax) (hjh : h_j ≤ hmax) :
+    seen k lo hi (depth nLayers cell) xi h_i xj h_j =
+    seen k lo hi (depth nLayers cell) xj h_j xi h_i :=
+  seen_symm k lo hi _ xi h_i xj h_j hxi hxj (mul_nonneg hk hi0) (mul_nonneg hk hj0)
+    (depth_covers nLayers k tiny h_i hmax cell hn hk hih (le_trans hi0 hih) htiny hcell)
+    (depth_covers nLayers k tiny h_j hmax cell hn hk hjh (le_trans hj0 hjh) htiny hcell)
+
+/-- the mechanism: whenever `i` meets the criterion with the image of `j`
+beyond the high face, that image has been made and so has the image of `i`
+beyond the low face (which `j` then meets the criterion with) -/
+theorem periodic_image_reaction_exists (k lo hi d xi h_i xj h_j : K) (hxi : xi ≤ hi) (hxj : lo ≤ xj)
+    (hi0 : 0 ≤ k * h_i) (hj0 : 0 ≤ k * h_j) (hid : k * h_i ≤ d) (hjd : k * h_j ≤ d)
+    (h : crit k h_i h_j ((xi - (xj + (hi - lo))) * (xi - (xj + (hi - lo)))) = true) :
+    lowSel lo d xj = true ∧ highSel hi d xi = true ∧
+    crit k h_j h_i ((xj - (xi + -(hi - lo))) * (xj - (xi + -(hi - lo)))) = true := by
+  obtain ⟨h1, h2⟩ := crit_image_pair k lo hi d xi h_i xj h_j hxi hxj hi0 hj0 hid hjd h
+  refine ⟨h1, h2, ?_⟩
+  have e : (xj - (xi + -(hi - lo))) * (xj - (xi + -(hi - lo)))
+      = (xi - (xj + (hi - lo))) * (xi - (xj + (hi - lo))) := by ring
+  rw [e, crit_comm]; exact h
+
+/-- … and the depth must not be sized from the array's own largest `h`
+(counterexample): unit box, `radius_scale = 2`, `n_layers = 2`; a fine
+particle `a` (`h = 1/100`) at `9/10` and a coarse particle `b` (`h = 1/10`) of
+another array at `1/20`.  `a` has the image of `b` (at `21/20`, `3/20` away,
+criterion `< 2/10`) as neighbour; with a layer of depth `2*2*(1/100)` for the
+fine array no image of `a` exists and `b` has no neighbour: the pair force has
+no reaction.  With the common depth of the code both see each other once. -/
+theorem own_h_image_depth_loses_reaction :
+    seen (2 : ℚ) 0 1 (ownDepth 2 2 (1 / 10)) (9 / 10) (1 / 100) (1 / 20) (1 / 10) = 1 ∧
+    seen (2 : ℚ) 0 1 (ownDepth 2 2 (1 / 100)) (1 / 20) (1 / 10) (9 / 10) (1 / 100) = 0 ∧
+    seen (2 : ℚ) 0 1 (depth 2 (2 * (1 / 10))) (9 / 10) (1 / 100) (1 / 20) (1 / 10) = 1 ∧
+    seen (2 : ℚ) 0 1 (depth 2 (2 * (1 / 10))) (1 / 20) (1 / 10) (9 / 10) (1 / 100) = 1 := by
+  refine ⟨?_, ?_, ?_, ?_⟩ <;>
+    (simp only [seen, crit, lowSel, highSel, ownDepth, depth]; norm_num)
+
+/-- non-vacuity of `periodic_pair_seen_equally`: the same two particles, the
+hypotheses hold and the count is 1 (not 0) -/
+example : seen (2 : ℚ) 0 1 (depth 2 (if (2 : ℚ) * (1 / 10) < 1 / 1000000 then 1 else 2 * (1 / 10)))
+    (9 / 10) (1 / 100) (1 / 20) (1 / 10) = 1 := by
+  simp only [seen, crit, lowSel, highSel, depth]; norm_num
+
+end PeriodicLayer
 
 end PysphVerif.C09
